@@ -96,7 +96,7 @@ func c10Delete(db *pebble.DB, key []byte, o *pebble.WriteOptions) error {
 	return nil
 }
 func c10Compact(db *pebble.DB, start, end []byte, parallelize bool) error { return nil }
-func c10Close(db *pebble.DB) error                                       { return nil }
+func c10Close(db *pebble.DB) error                                        { return nil }
 
 // NewIter: the iterator is not positioned until First/Last/Seek* is called.
 func c10NewIter(db *pebble.DB, o *pebble.IterOptions) *pebble.Iterator {
